@@ -706,6 +706,9 @@ package tree
 //@   requires t != nil && INV12()
 //@   call (*tree.Tree).cutEdgesMaxLengthRecur [flood_starts_only_across_a_branch_strictly_shorter_than_the_threshold] e.length < maxlen && a4 == maxlen
 //@   call (*tree.TipBag).AddTip [tip_of_a_cut_tip_branch_gets_its_own_bag] !(e.length < maxlen) && len(a1.neigh) == 1 && (a1 == e.left || a1 == e.right)
+//@   call (*tree.Edge).SetId [every_branch_is_numbered_by_its_position_in_the_list_before_the_flood] a0 == e && a1 == rangeindex + 1 && e == edges[rangeindex + 1] && len(visited) == len(edges)
+//@   loop 1
+//@     step [a_branch_is_unvisited_once_numbered] visited[rangeindex + 1] == false
 
 // the order used to sort the tips of the matrix: by the names of the tips being sorted
 //@ func (*tree.Tree).ToDistanceMatrix$1
@@ -943,10 +946,13 @@ package tree
 
 //@ func (*tree.NNIRearranger).Rearrange
 //@   flag noframe
+//@   flag countcalls
 //@   requires t != nil
 //@   call tree.newNNI [only_on_branches_whose_two_ends_have_three_neighbours] deg(a1) == 3 && deg(a2) == 3 && a1 == e.left && a2 == e.right && a0 == t
+//@   call tree.newNNI [the_plain_exchange_first_then_the_crossed_one] a3 == (ghost(ncalls_newNNI) - atHead(ghost(ncalls_newNNI)) == 1)
 //@   loop 1
 //@     step [two_moves_per_eligible_branch_none_otherwise_unless_stopped] (deg(e.left) == 3 && deg(e.right) == 3 ? ghost(fncalls_f) >= atHead(ghost(fncalls_f)) + 1 && ghost(fncalls_f) <= atHead(ghost(fncalls_f)) + 2 : ghost(fncalls_f) == atHead(ghost(fncalls_f)))
+//@     step [every_proposal_is_an_object_of_its_own_one_plain_one_crossed] ghost(ncalls_newNNI) - atHead(ghost(ncalls_newNNI)) == ghost(fncalls_f) - atHead(ghost(fncalls_f))
 
 // ---------------------------------------------------------------------------
 // GraftTipOnEdge (properties C16, C03): subdivide e by a fresh inner node w in
